@@ -215,14 +215,12 @@ func (vc *VC) zeroFill(st *State, base Term, t types.Type) error {
 	vc.leafSorts(t, sorts)
 	for s := range sorts {
 		old := vc.heap(st, s)
-		nh := vc.Fresh("hz", heapSort(s))
 		z, err := vc.zeroOfSort(s)
 		if err != nil {
 			return err
 		}
-		ax := fmt.Sprintf("(forall ((q!r Ref)) (! (= (select %s q!r) (ite (= (rid q!r) %s) %s (select %s q!r))) :pattern ((select %s q!r))))",
-			nh.S, Rid(base).S, z.S, old.S, nh.S)
-		st.assume(Term{ax, SBool})
+		q := Term{"q!r", SRef}
+		nh := vc.LambdaHeap("hz", s, Ite(Eq(Rid(q), Rid(base)), z, Select(old, q)))
 		st.heaps[s] = nh
 		vc.heapReg[s] = true
 	}
